@@ -73,7 +73,7 @@ def handle : Handler
           sig := if hasSig then some sigEnc else none
           rawShort := nbytes < total
           rawMagic2 := raw && text.take total == ParseConsts.magic2Raw
-          rawMagic2Ws := match text.drop total with | [] => true | c :: _ => isWs c
+          rawNext := match text.drop total with | [] => none | c :: _ => some (if c < 128 then c else 255)
           rawMagic7 := raw && text.take ParseConsts.magicLengthRaw == ParseConsts.magic2Raw.take ParseConsts.magicLengthRaw
           decoded := decodedMagic body
           bomFirst := sigFlag || text.head? = some ParseConsts.ucharBom
